@@ -1,0 +1,5 @@
+//go:build !verif
+
+package storage
+
+func verifStorage(kind string, vals ...float64) {}
